@@ -9,15 +9,15 @@ Proof.
     repeat match goal with X : (_ =? _) = true |- _ => apply N.eqb_eq in X; subst end; reflexivity.
 Qed.
 
-Lemma honest_membership other me pf id ph k v :
-  honest_vmem other me pf id ph k v = true ->
+Lemma honest_membership other me pf lh id ph k v :
+  id <> lh -> honest_vmem other me pf lh id ph k v = true ->
   exists t ver snap v',
     consulted me id ph = Some (t, ver) /\ pf = PHonest ver k /\
     assocN ver (w_vers other) = Some snap /\ lookup snap k = Some v' /\ pval_eqb v v' = true.
 Proof.
-  unfold honest_vmem. intros H.
+  unfold honest_vmem. intros Hne H. apply N.eqb_neq in Hne. rewrite Hne in H.
   destruct (consulted me id ph) as [[t ver]|] eqn:Ec; [|discriminate].
-  destruct pf as [pv pk|]; [|discriminate].
+  destruct pf as [pv pk| |]; [|discriminate|discriminate].
   apply andb_true_iff in H as [H H3]. apply andb_true_iff in H as [H1 H2].
   apply N.eqb_eq in H1. subst pv. apply pkey_eqb_eq in H2. subst pk.
   destruct (assocN ver (w_vers other)) as [snap|] eqn:Es; [|discriminate].
@@ -25,15 +25,15 @@ Proof.
   exists t, ver, snap, v'. auto.
 Qed.
 
-Lemma honest_nonmembership other me pf id ph k :
-  honest_vnon other me pf id ph k = true ->
+Lemma honest_nonmembership other me pf lh id ph k :
+  id <> lh -> honest_vnon other me pf lh id ph k = true ->
   exists t ver snap,
     consulted me id ph = Some (t, ver) /\ pf = PHonest ver k /\
     assocN ver (w_vers other) = Some snap /\ lookup snap k = None.
 Proof.
-  unfold honest_vnon. intros H.
+  unfold honest_vnon. intros Hne H. apply N.eqb_neq in Hne. rewrite Hne in H.
   destruct (consulted me id ph) as [[t ver]|] eqn:Ec; [|discriminate].
-  destruct pf as [pv pk|]; [|discriminate].
+  destruct pf as [pv pk| |]; [|discriminate|discriminate].
   apply andb_true_iff in H as [H H3]. apply andb_true_iff in H as [H1 H2].
   apply N.eqb_eq in H1. subst pv. apply pkey_eqb_eq in H2. subst pk.
   destruct (assocN ver (w_vers other)) as [snap|] eqn:Es; [|discriminate].
@@ -50,4 +50,17 @@ Proof.
   unfold consulted. intros H. destruct (find_client me id) as [cl|]; [|discriminate].
   destruct (client_active _ cl) eqn:Ea; cbn [negb] in H; [|discriminate].
   destruct (h_lt (cl_latest cl) ph) eqn:El; [discriminate|]. exists cl. auto.
+Qed.
+
+(** the localhost client of Core/World.v is a loopback environment in the sense of C04 *)
+Lemma world_loopback other me pf lh sc nc :
+  let e := honest_env other me pf lh sc nc in
+  (forall ph k, e_vnon e lh ph k = true -> h_lte ph (self_h (w_chain me)) = true) /\
+  (forall ph k v, e_vmem e lh ph k v = true -> h_lte ph (self_h (w_chain me)) = true) /\
+  (forall ph t, e_ts e lh ph = Some t -> t = self_t (w_chain me)).
+Proof.
+  cbn. unfold honest_vnon, honest_vmem, loop_vnon, loop_vmem. rewrite N.eqb_refl. repeat split.
+  - intros ph k H. destruct pf; try discriminate. now apply andb_true_iff in H as [H _].
+  - intros ph k v H. destruct pf; try discriminate. now apply andb_true_iff in H as [H _].
+  - intros ph t [= <-]. reflexivity.
 Qed.
